@@ -1,4 +1,5 @@
 import JSight.Model.Build
+import JSight.Proofs.BuildFaith
 /-!
 Helper lemmas for C19 on the catalog-construction model (`Props/C19_Build.lean`): what `tagsFor`,
 `attachAll`, `addHTTPMethod` and `addJsonRpcMethod` leave unchanged, and the shape of an accepted method.
@@ -27,5 +28,44 @@ theorem attachAll_inters (c : Cat) (i : IId) (ns : List Bytes) : (attachAll c i 
   induction ns generalizing c with
   | nil => rfl
   | cons n r ih => simp only [attachAll, ih, updTag_inters]
+
+/-! ### the entries of the children of an entry (for `two_tags_never_accepted`) -/
+
+open JSight.C04B in
+/-- the entry of a child tree is among the entries of the forest of its siblings -/
+theorem kid_head_mem (anc : List Up) : ∀ (kids : List BTree) (t : BTree), t ∈ kids →
+    (⟨t.dir, t.kids.map BTree.dir, anc⟩ : Ent) ∈ flatAF anc kids
+  | [], _, h => by cases h
+  | a :: r, t, h => by
+    simp only [flatAF, List.mem_append]
+    rcases List.mem_cons.1 h with rfl | h
+    · left
+      cases t with
+      | node d ks => simp [flatA, BTree.dir, BTree.kids]
+    · exact Or.inr (kid_head_mem anc r t h)
+
+open JSight.C04B in
+mutual
+  /-- every child `k` of an entry `m` of a tree has an entry of its own, whose parent is `m` -/
+  theorem kid_ent_tree (anc : List Up) : ∀ (t : BTree) (m : Ent), m ∈ flatA anc t → ∀ k ∈ m.kids,
+      ∃ e ∈ flatA anc t, e.d = k ∧ e.anc = ⟨m.d, m.kids⟩ :: m.anc
+    | .node d kids, m, hm, k, hk => by
+      simp only [flatA, List.mem_cons] at hm
+      rcases hm with rfl | hm
+      · obtain ⟨t, ht, rfl⟩ := List.mem_map.1 hk
+        exact ⟨_, by simp only [flatA]; exact List.mem_cons_of_mem _ (kid_head_mem _ kids t ht), rfl, rfl⟩
+      · obtain ⟨e, he, h1, h2⟩ := kid_ent_forest _ kids m hm k hk
+        exact ⟨e, by simp only [flatA]; exact List.mem_cons_of_mem _ he, h1, h2⟩
+  theorem kid_ent_forest (anc : List Up) : ∀ (f : List BTree) (m : Ent), m ∈ flatAF anc f → ∀ k ∈ m.kids,
+      ∃ e ∈ flatAF anc f, e.d = k ∧ e.anc = ⟨m.d, m.kids⟩ :: m.anc
+    | [], m, hm, _, _ => by simp [flatAF] at hm
+    | t :: r, m, hm, k, hk => by
+      simp only [flatAF, List.mem_append] at hm ⊢
+      rcases hm with hm | hm
+      · obtain ⟨e, he, h1, h2⟩ := kid_ent_tree anc t m hm k hk
+        exact ⟨e, Or.inl he, h1, h2⟩
+      · obtain ⟨e, he, h1, h2⟩ := kid_ent_forest anc r m hm k hk
+        exact ⟨e, Or.inr he, h1, h2⟩
+end
 
 end JSight.C19B
